@@ -14,7 +14,7 @@ klass(f"{T}:ExecutionTrace", fields={
     "executed_instructions": "list[ExecutedInstruction]",
     "executed_assertions": "list[ExecutedAssertion]",
 })
-klass(f"{T}:ExecutedAssertion", fields={"trace_position": "int", "assertion": "Assertion"})
+klass(f"{T}:ExecutedAssertion", fields={"trace_position": "int", "assertion": "Assertion"}, record=True)
 klass(f"{T}:PredicateMetaData", fields={"line_no": "int", "code_object_id": "int", "node": "BasicBlockNode"})
 klass(f"{T}:LineMetaData", fields={"code_object_id": "int", "file_name": "str", "line_number": "int"})
 klass(f"{T}:CodeObjectMetaData", fields={})
@@ -22,6 +22,16 @@ klass(f"{T}:SubjectProperties", fields={
     "existing_code_objects": "dict[int,CodeObjectMetaData]",
     "existing_predicates": "dict[int,PredicateMetaData]",
     "existing_lines": "dict[int,LineMetaData]",
+})
+
+klass("pynguin.testcase.execution_result:ExecutionResult", fields={
+    "timeout": "bool",
+    "exceptions": "dict[int,BaseException]",
+    "execution_trace": "Optional[ExecutionTrace]",
+    "num_executed_statements": "int",
+    "assertion_trace": "AssertionTrace", "assertion_verification_trace": "AssertionVerificationTrace",
+    "raw_return_types": "dict[int,type]", "raw_return_type_generic_args": "dict[int,typeargs]",
+    "proper_return_type_trace": "dict[int,ProperType]", "proxy_knowledge": "ProxyKnowledge",
 })
 
 # distances are >= 0 and not NaN (may be +inf); counts >= 1; the three predicate maps share their keys
@@ -67,10 +77,14 @@ def _b_trace(f, ctx):
     return t
 
 
-@builder("ExecutedAssertion")
-def _b_ea(f, ctx):
-    from pynguin.instrumentation.tracer import ExecutedAssertion
-    return ExecutedAssertion(f.get("trace_position", 0), f.get("assertion"))
+@builder("ExecutionResult")
+def _b_er(f, ctx):
+    from pynguin.testcase.execution_result import ExecutionResult
+    r = ExecutionResult(timeout=bool(f.get("timeout", False)))
+    r.execution_trace = f.get("execution_trace")
+    r.exceptions = {k: RuntimeError("x") for k in f.get("exceptions", {})}
+    r.num_executed_statements = f.get("num_executed_statements", 0)
+    return r
 
 
 @builder("PredicateMetaData")
@@ -98,3 +112,30 @@ def _b_sp(f, ctx):
     sp.existing_predicates = dict(f.get("existing_predicates", {}))
     sp.existing_lines = dict(f.get("existing_lines", {}))
     return sp
+
+
+# ---------------------------------------------------------------------------------------
+# samplers of well-formed instances for the small-scope counterexample search
+from pyvc.enumerate import sampler  # noqa: E402
+from pyvc.replay import Obj  # noqa: E402
+
+
+@sampler("ExecutionTrace")
+def _s_trace(sc, cls):
+    r = sc.rnd
+    o = Obj(cls, sc.next_ref)
+    sc.next_ref += 1
+    keys = [k for k in sc.keys if r.random() < 0.6]
+    dist = [0.0, 0.0, 0.5, 1.0, 3.0, float("inf")]
+    o.fields = {
+        "executed_code_objects": ("$set", [k for k in sc.keys if r.random() < 0.5]),
+        "executed_predicates": ("$dict", [(k, r.choice([1, 1, 2, 3])) for k in keys]),
+        "true_distances": ("$dict", [(k, r.choice(dist)) for k in keys]),
+        "false_distances": ("$dict", [(k, r.choice(dist)) for k in keys]),
+        "covered_line_ids": ("$set", [k for k in sc.keys if r.random() < 0.5]),
+        "checked_lines": ("$set", [k for k in sc.keys if r.random() < 0.3]),
+        "object_addresses": ("$set", []),
+        "executed_instructions": [("$opaque", "ExecutedInstruction", f"i{j}") for j in range(r.randint(0, 2))],
+        "executed_assertions": [(r.randint(0, 2), ("$opaque", "Assertion", f"a{j}")) for j in range(r.randint(0, 2))],
+    }
+    return o
